@@ -30,6 +30,9 @@ THEOREMS = [
     "FaxVerif.C04.guarded_second",
     "FaxVerif.C04.or_step",
     "FaxVerif.C04.and_step",
+    "FaxVerif.C04.or_chain_decided",
+    "FaxVerif.C04.and_chain_decided",
+    "FaxVerif.C04.or_chain_next",
     "FaxVerif.C04.event_first_empty_loud",
     "FaxVerif.C04.guarded_first_safe",
     "FaxVerif.C04.guarded_package_correct",
